@@ -1,0 +1,26 @@
+//go:build verif
+
+// Contracts for cross-chain manager helpers (C20, C21), read by /verif/gocv.
+package common
+
+// key of the done-marker of message crossChainID from chain chainID
+//@ spec doneKey(crossChainID []byte, chainID uint64) KeyT = K3(utils.CrossChainManagerContractAddress, "doneTx", u64le(chainID), crossChainID)
+
+//@ spec doneKeyB(id Bytes, chainID uint64) KeyT = K3(utils.CrossChainManagerContractAddress, "doneTx", u64le(chainID), id)
+
+//@ func PutDoneTx
+//@   property C20
+//@   mode abstract
+//@   requires native != nil
+//@   modifies Store
+//@   ensures err == nil
+//@   ensures Store == upd(old(Store), old(doneKey(crossChainID, chainID)), Store[old(doneKey(crossChainID, chainID))]) && Store[old(doneKey(crossChainID, chainID))] != None
+
+//@ func CheckDoneTx
+//@   property C20
+//@   mode abstract
+//@   requires native != nil
+//@   modifies nothing
+//@   -- nil exactly when no done-marker is stored for (chainID, crossChainID); storage is not touched
+//@   ensures err == nil ==> Store[doneKey(crossChainID, chainID)] == None
+//@   ensures Store[doneKey(crossChainID, chainID)] != None ==> err != nil
